@@ -7,7 +7,8 @@ GO=go1.26.8
 command -v $GO >/dev/null 2>&1 || GO=/opt/veriftools/go1.26.8/bin/go
 mkdir -p ../bin
 # build beside the target and rename: a check that is running (or starting) never sees a half-written binary
-$GO build -o ../bin/.uqcheck.new . && mv -f ../bin/.uqcheck.new ../bin/uqcheck
+$GO build -o ../bin/.uqcheck.new .
+mv -f ../bin/.uqcheck.new ../bin/uqcheck
 echo "built /verif/bin/uqcheck"
 # the mutant generator used by tools/mutscore.py (a measuring tool, not a check)
 (cd ../tools/mutgen && $GO build -o ../../bin/.mutgen.new . && mv -f ../../bin/.mutgen.new ../../bin/mutgen ) && echo "built /verif/bin/mutgen"
